@@ -302,7 +302,7 @@ macro_rules! define_gfgen { ($typename:ident, $fieldparams:ident, $submod:ident,
             // If instructed so, we use the generic multiplication support
             // for squarings. The special code may or may not be faster,
             // depending on the modulus size, value, and target architecture.
-            if !($squarespec) {
+            if !($squarespec) || Self::N < 2 {
                 let r = *self;
                 self.set_mul(&r);
                 return;
